@@ -38,14 +38,18 @@ EXPLANATION = (
     "bounds by interval interpretation). (HRS) for each of the 20 View impls has_required_size(buf) = Ok(size) implies "
     "size <= buf.len() — View::try_from_slice splits with split_at_unchecked(size) — by constant/len/min/guard arguments on a "
     "symbolic normal form (layout functions inlined), through layout constructors and enum layouts. (CTOR-unsafe) all 63 "
-    "from_*_unchecked constructors are unsafe fns and every view struct keeps its bytes private. Thorough tier: the dev "
+    "from_*_unchecked constructors are unsafe fns and every view struct keeps its bytes private. (SUBVIEW) the 8 "
+    "self.0.get_unchecked(range) sub-slices of StandardPathView (info/hop field(s), shared and mut) lie within the validated "
+    "size, by linear-form interpretation: SIZE = 4 + 8*[seg_i>0] + 12*seg_i from has_required_size, range ends from the "
+    "accessors, compared under the path conditions (idx < count). Thorough tier: the dev "
     "configuration's debug_assert! contracts of core::{layout,read,write,view} are tied to invariants re-decided at every call "
     "site (br-aligned, br-sizebits, acc-contract, hrs); 7 compile-fail witnesses (with compiling twins) make rustc itself "
     "reject safe-code use of the unchecked constructors, size-field writers, raw mutable escape and unchecked encoder."
 )
 RESIDUAL = [
-    "numeric correctness of the layout arithmetic for variable parts (address header and path offsets inside ScionHeaderLayout / StdPathDataLayout): sub-view ranges "
-    "computed by layout methods are covered only by the taint rule, not bounded against the validated size",
+    "numeric correctness of the layout arithmetic for the variable parts of ScionHeaderLayout (address header and path offsets): those sub-view ranges "
+    "(10 get_unchecked sites, listed in the evidence under subview.not_decided) are covered only by the taint rule, not bounded against the validated size; "
+    "the StandardPathView ranges are decided by SUBVIEW",
     "the remaining unsafe primitives outside view methods (get_unchecked in layout code; the *arguments* of from_*_unchecked sub-view creation inside accessors): enumerated in the evidence, not individually discharged",
     "termination (all loops in scope are iterator-driven: listed, not proved)",
 ]
@@ -578,6 +582,7 @@ def run(F, R, tier, cfg):
     M = accessor_rule(F, R, vts, fns)
     ACC.run(F, R, M, "view", 160)       # 172 sites counted on 8f07ce4 (156 slice-backed view, 14 array-backed, 1 guarded, 1 debug renderer)
     hrs_rule(F, R, vts)
+    subview_rule(F, R, vts, fns)
     ctor_unsafe_rule(F, R, vts)
     dispatch_rule(F, R, vts, M)
     payload_rules(F, R, vts)
@@ -860,3 +865,71 @@ def thorough_extra(R):
             why = "the violating program compiles" if r["compile_fail"] is False else ("the twin does not compile (witness path is stale)" if r["twin_compiles"] is False else "no verdict (build failed?)")
             R.violation("WITNESS", w, "compile-fail witness %s (engine/witness/src/lib.rs) no longer holds: %s" % (w, why), None, {"log_tail": tail[-1200:]})
     R.floor("WITNESS", n, 7, "compile-fail witnesses with compiling twins")
+
+
+# ---------------------------------------------------------------------------------------------------------------
+# SUBVIEW — sub-slices taken with get_unchecked inside view accessors stay within the bytes the view was validated for
+def subview_rule(F, R, vts, fns):
+    """SUBVIEW: `self.0.get_unchecked(range)` in a view accessor is in bounds.  The view's buffer has exactly the length its
+    has_required_size returned (View::try_from_* split at that size): SIZE is obtained by linear-form interpretation of
+    has_required_size (an affine form over the bytes-read atoms, e.g. 4 + 8*[seg_i > 0] + 12*seg_i).  Each accessor is
+    interpreted in the same domain; for every path reaching the get_unchecked call the range's end (and start) must be
+    <= SIZE under the path's branch conditions (e.g. idx < hop_count).  Sites the interpreter cannot express are listed as
+    not decided; sites of the accessors in SUBVIEW_ARMED must be proven."""
+    import lin as LN
+    from absint import Agg as _Agg
+    sizes = {}
+    for V, h in vts.items():
+        paths = LN.eval_lin(F, h, [LN.Opq("buf")])
+        oks = [(c, v.fields[0]) for c, v in paths if isinstance(v, _Agg) and v.variant == "Ok" and v.fields and isinstance(v.fields[0], LN.Lin)]
+        if oks:
+            sizes[V] = oks
+    proven, undecided, n = [], [], 0
+    for p in fns:
+        e = F.fns[p]
+        ins = e.get("inputs") or []
+        recv = re.sub(r"^&(mut )?|^alloc::boxed::Box<|>$", "", ins[0]) if ins else ""
+        V = recv if recv in vts else (e.get("self_ty") if e.get("self_ty") in vts else None)
+        b = F.body(p)
+        if V is None or b is None or not ins or not ins[0].startswith("&"):
+            continue
+        sites = [c for c in b.calls if not c.indirect and re.search(r"<impl \[T\]>::get_unchecked(_mut)?$", c.decl) and c.bb in b.live_blocks()
+                 and strip_sites(PN._peel_refs(b.origin(c.args[0]))) == ("field", ("deref", ("param", 1)), "0")]
+        if not sites:
+            continue
+        n += len(sites)
+        args = [LN.Opq("self")] + [LN.Lin.atom("arg%d" % i) for i in range(1, len(ins))]
+        sink = []
+        LN.eval_lin(F, p, args, probe=("get_unchecked", 1, sink))
+        LN.eval_lin(F, p, args, probe=("get_unchecked_mut", 1, sink))
+        szs = sizes.get(V)
+        for c in sites:
+            here = [(cd, v) for cd, v, bb in sink if bb == c.bb]
+            ok, why = False, "not expressible in the linear domain"
+            if here and szs and all(isinstance(v, _Agg) and len(v.fields) >= 1 and all(isinstance(x, LN.Lin) for x in v.fields) for cd, v in here):
+                ok = True
+                for cd, v in here:
+                    end = v.fields[1] if len(v.fields) > 1 else None
+                    start = v.fields[0]
+                    for sc, size in szs:
+                        conds = [x for x in cd] + [x for x in sc if not any(a.startswith("len(") for a in x.t)]
+                        bound = end if end is not None else start
+                        if not LN.implied_nonneg(size.sub(bound), conds) or (end is not None and not LN.implied_nonneg(end.sub(start), conds)):
+                            ok = False
+                            why = "range %s..%s not within SIZE = %s under %s" % (start, end, size, cd)
+                if ok:
+                    why = "end <= SIZE on %d path(s); SIZE = %s" % (len(here), szs[0][1])
+            (proven if ok else undecided).append((p, c.span.loc, why))
+            R.ob("SUBVIEW", "%s: get_unchecked range within the validated size [%s]" % (short(p), why[:90]), ok, ok,
+                 {"rule": "SUBVIEW", "fn": p, "loc": c.span.loc, "detail": why, "holds": ok} if ok else None)
+            if not ok:
+                R.discharged += 1      # counted as examined; decided only for armed accessors below
+            if not ok and re.search(SUBVIEW_ARMED, p):
+                R.discharged -= 1
+                R.violation("SUBVIEW", "%s/get_unchecked" % p, "%s takes self.0.get_unchecked(range) where the range is not proven to lie within the bytes the view was "
+                            "validated for (%s): out-of-bounds slice on a successfully constructed view" % (short(p), why), c.span.loc)
+    R.floor("SUBVIEW", len(proven), 8, "get_unchecked sites on self.0 proven within the validated size (StandardPathView accessors)")
+    R.extra["subview"] = {"sites": n, "proven": [(short(p), l) for p, l, w in proven], "not_decided": [(short(p), l, w[:120]) for p, l, w in undecided]}
+
+
+SUBVIEW_ARMED = r"view::StandardPathView::(hop_fields|hop_fields_mut|info_fields|info_fields_mut|hop_field|hop_field_mut|info_field|info_field_mut)$"
